@@ -426,6 +426,20 @@ pub fn gen(seed: u64, thorough: bool, only: Option<u64>, out: &mut Out) {
         if obs == want { Ok(()) } else { Err(format!("recover from {} distinct of threshold {} gave {}", distinct.len(), t, &obs[..obs.len().min(30)])) },
       );
     }
+    // ... also when the odd share repeats the point of an earlier share
+    if k >= 1 && all.len() >= t as usize && t >= 2 && (thorough || t < 100) {
+      let mut mix: Vec<Vec<u8>> = all.iter().take(t as usize).cloned().collect();
+      let mut short = all[0].clone();
+      short.truncate(24 * k);
+      mix.insert(2.min(mix.len()), short);
+      let shares: Vec<Share> = mix.iter().map(|b| Share::try_from(b.as_slice()).unwrap()).collect();
+      let obs = recover_obs(t, &shares);
+      out.case(
+        format!("sharks.recover {} {}", t, mix.iter().map(|b| hex(b)).collect::<Vec<_>>().join(" ")),
+        obs.clone(),
+        if obs == "err" { Ok(()) } else { Err("a shorter share that repeats an earlier share's point was not refused".into()) },
+      );
+    }
     // shares of unequal length are refused
     if k >= 1 && all.len() >= 2 {
       let mut a = all[0].clone();
